@@ -32,6 +32,9 @@ class CRing (R : Type) extends Add R, Mul R, Neg R, Zero R, One R where
   conj_mul : ∀ a b : R, conj (a * b) = conj a * conj b
   conj_zero : conj (0 : R) = 0
   re_self : ∀ a : R, conj a = a → re a = a
+  zero_mul : ∀ a : R, 0 * a = 0
+  zero_add : ∀ a : R, 0 + a = a
+  one_mul : ∀ a : R, 1 * a = a
 
 /-- the integers with trivial conjugation: the model of a real element type (used for the concrete counterexamples) -/
 instance : CRing Int where
@@ -44,6 +47,9 @@ instance : CRing Int where
   conj_mul := fun _ _ => rfl
   conj_zero := rfl
   re_self := fun _ _ => rfl
+  zero_mul := Int.zero_mul
+  zero_add := Int.zero_add
+  one_mul := Int.one_mul
 
 /-! ### Gaussian integers: the concrete ring with a non-trivial conjugation (driver, counterexamples) -/
 structure GInt where
@@ -87,6 +93,18 @@ instance : CRing GInt where
     intro a h
     have h2 : -a.im = a.im := congrArg GInt.im h
     apply ext' <;> simp <;> omega
+  zero_mul := by
+    intro a; apply ext'
+    · show (0 : Int) * a.re - 0 * a.im = 0; omega
+    · show (0 : Int) * a.im + 0 * a.re = 0; omega
+  zero_add := by
+    intro a; apply ext'
+    · show (0 : Int) + a.re = a.re; omega
+    · show (0 : Int) + a.im = a.im; omega
+  one_mul := by
+    intro a; apply ext'
+    · show (1 : Int) * a.re - 0 * a.im = a.re; omega
+    · show (1 : Int) * a.im + 0 * a.re = a.im; omega
 end GInt
 
 
